@@ -97,7 +97,7 @@ func init() {
 
 func c18Families(tier string) []engine.Family {
 	maxK := tierPick(tier, 2, 3)
-	bufs := []int{1, 2, 3, 7, 64}
+	bufs := []int{1, 2, 3, 7, 64, 0} // (0: a decoder that cannot read must say so instead of polling its reader forever)
 	var fams []engine.Family
 	for _, cd := range codecs {
 		cd := cd
@@ -220,6 +220,13 @@ func c18Body(x *engine.Exec, cd *Codec, stream []byte, bufs []int) {
 	}
 	if res.Bad() {
 		x.Violation(entry, res.Symptom(), class, res.Panic+res.Where, wit())
+		return
+	}
+	if kind == 1 && buf == 0 {
+		// nothing can be read through a zero-length buffer: any error is fine, success or endless polling is not
+		if res.Err == nil || res.Err == errNoTermination {
+			x.Violation(entry, "zero-buffer-no-error", class, "a decoder with a zero-length buffer did not report an error", wit())
+		}
 		return
 	}
 	if res.Err == errNoTermination {
